@@ -8,11 +8,36 @@ one queue of pending sends and one queue of pending receives per mailbox / messa
   - a cancelled request, or a blocking get(timeout) that reported its timeout to the caller, is withdrawn;
   - a permanent receiver changes timings only.
 Every R (return) line of a reception is compared with the model's match; payload integrity is checked on every delivery.
-After the first divergence of a scenario the replay stops (model and implementation are no longer in the same state).
+After the first divergence of a scenario the replay stops (model and implementation are no longer in the same state); the
+end-of-run observations (S lines: slots/buffers written again after the receiver consumed them) are judged in any case.
+Where the statement is silent the replay stops without a verdict (res.stopped): a put that arrives in the very scheduling round
+in which a get(timeout) expires, an exception nobody provoked.
 """
 
+
+def split_groups(out):
+    """harness output of a batch -> ({group: text}, ended, last group that printed something)"""
+    per, ended, last = {}, False, -1
+    for l in out.splitlines():
+        if not l.startswith("@"):
+            continue
+        head, _, rest = l.partition(" ")
+        try:
+            g = int(head[1:])
+        except ValueError:
+            continue
+        if rest.startswith("END"):
+            ended = True
+            continue
+        if g < 0:
+            continue
+        per.setdefault(g, []).append(rest)
+        last = max(last, g)
+    return {g: "\n".join(v) + "\n" for g, v in per.items()}, ended, last
+
 PUT_OPS = {"put", "putw", "puta", "putd", "putf", "putT", "bput", "bputs", "bputa", "bputd", "qput", "qputt", "qputa", "qputd"}
-GET_OPS = {"get", "getT", "getw", "geta", "getp", "getf", "bget", "bgets", "bgeta", "qget", "qgett", "qgeta", "qgetp", "qgetw"}
+GET_OPS = {"get", "getT", "getw", "geta", "getp", "getf", "bget", "bgets", "bgeta", "qget", "qgett", "qgeta", "qgetp", "qgetw",
+           "qgets", "qgetts"}
 ASYNC_OPS = {"puta", "putd", "bputa", "bputd", "qputa", "qputd", "geta", "getp", "bgeta", "qgeta", "qgetp"}
 
 
@@ -43,7 +68,7 @@ def parse(out):
 
 class H:
     __slots__ = ("h", "kind", "box", "actor", "op", "mid", "size", "n", "cap", "data", "fk", "want", "eager", "posted_permanent",
-                 "peer", "withdrawn", "cancel_hit", "waiting", "result", "ln")
+                 "peer", "withdrawn", "cancel_hit", "waiting", "result", "ln", "timed_out")
 
     def __init__(self, **kw):
         for s in self.__slots__:
@@ -57,7 +82,6 @@ class Box:
         self.permanent = False
         self.toggled = False
         self.filters = False
-        self.stale = False        # a blocking get(timeout)/put(timeout) of the message-queue API timed out earlier
         self.cause = None         # first point where the two-queue implementation of permanent receivers can leave the statement
 
 
@@ -83,16 +107,27 @@ class Result:
         self.completed = False    # END seen
         self.deliveries = 0
         self.choice = 0           # matches that had to choose among >=2 candidates, or where a filter skipped an older one
+        self.after_timeout = False   # a wait_for()/get(timeout)/put(timeout) on a message-queue activity timed out earlier in the run
+        self.after_matched_cancel = False   # a message-queue request was cancelled (and its handle released) after it had been matched
+        self.toggled = False
 
     def count(self, k, n=1):
         self.counters[k] = self.counters.get(k, 0) + n
 
 
-def replay(out, prop):
-    """prop = 'C08' or 'C09' (prefix of the keys; C08 judges mailboxes, C09 message queues; the other kind is replayed too
-    because it shares the scenario, but its violations are reported under its own property prefix and filtered by the caller)."""
+def replay(out, prop, ended=True):
+    """out = the log of one scenario (group prefix removed, no END line); ended = the process reached the end of the simulation.
+    Keys start with C08 for mailboxes and C09 for message queues (prop is used when no box is involved)."""
     res = Result()
+    res.completed = ended
     evs = parse(out)
+    # dates at which the 1e6 s timeout of a blocking Mailbox::put/get(timeout) fired (they fire only when nothing else can happen;
+    # the API then cancels the request before the actor can print anything: all the requests expiring at one date are withdrawn
+    # together, when the first of them is reported)
+    api_to = {}
+    for ev in evs:
+        if ev["k"] == "R" and ev["op"] in ("putT", "getT") and "Timeout" in ev["kv"].get("st", ""):
+            api_to.setdefault(ev["kv"].get("now"), []).append(int(ev["kv"]["h"]))
     boxes, hs = {}, {}
     delivered = {}               # mid -> h of the get
     issued = {}                  # mid -> put handle
@@ -108,7 +143,9 @@ def replay(out, prop):
 
     def context(b, g=None, exp=None):
         if b.name.startswith("q"):
-            return "after-timeout" if b.stale else "plain"
+            if g is not None and g.op == "qgetw":
+                return "unstarted-wait"
+            return qcontext()
         if b.cause:
             return b.cause
         if b.toggled:
@@ -116,6 +153,9 @@ def replay(out, prop):
         if b.filters:
             return "filters"
         return "plain"
+
+    def qcontext():
+        return "after-timeout" if res.after_timeout else "after-matched-cancel" if res.after_matched_cancel else "plain"
 
     def tail(ln, n=14):
         lines = out.splitlines()
@@ -212,16 +252,43 @@ def replay(out, prop):
         res.stopped = "unexpected failure %s of h=%d" % (kv.get("st"), hd.h)
         return False
 
+    def withdraw(hd):
+        """the request is over for its caller (cancel / reported timeout)"""
+        b = boxes[hd.box]
+        q = b.sends if hd.kind == "put" else b.recvs
+        if hd.h in q:
+            q.remove(hd.h)
+            hd.withdrawn = True
+            return "pending"
+        if hd.peer is not None and not hd.withdrawn:
+            hd.cancel_hit = hs[hd.peer].cancel_hit = True
+            if hd.box.startswith("q"):
+                res.after_matched_cancel = True
+            return "matched"
+        return "none"
+
     for ev in evs:
-        if res.stopped:
-            break
         k = ev["k"]
-        if k == "END":
-            res.completed = True
+        if k == "S":
+            res.count("scribbles_checked")
+            if ev["kv"].get("st") != "ok":
+                h = int(ev["kv"]["h"])
+                g = hs.get(h)
+                P = pfx(boxes[g.box]) if g else prop
+                if g is not None and g.timed_out:
+                    res.violations.append(("%s:timed-out-get-consumed-a-put" % P,
+                                           "reception h=%d (actor %d, %s on %s, line %d) reported a timeout to its caller, yet a payload was "
+                                           "written into its result slot later on: a get that was over consumed a put" % (h, g.actor, g.op, g.box, g.ln)))
+                else:
+                    res.violations.append(("%s:payload-rewritten-after-delivery" % P,
+                                           "the slot/buffer of reception h=%d%s was written again after the receiver had consumed the message"
+                                           % (h, " (actor %d, %s on %s, line %d)" % (g.actor, g.op, g.box, g.ln) if g else "")))
+            continue
+        if res.stopped:
             continue
         if k == "X":
             res.stopped = "harness caught an unexpected exception: " + ev["raw"]
-            break
+            continue
         if k == "COPY":
             mid = ev["kv"].get("mid")
             copies[mid] = copies.get(mid, 0) + 1
@@ -233,15 +300,6 @@ def replay(out, prop):
             continue
         if k == "CLEAN":
             res.count("detached_clean_calls")
-            continue
-        if k == "S":
-            res.count("scribbles_checked")
-            if ev["kv"].get("st") != "ok":
-                h = int(ev["kv"]["h"])
-                g = hs.get(h)
-                P = pfx(boxes[g.box]) if g else prop
-                res.violations.append(("%s:payload-rewritten-after-delivery" % P,
-                                       "the slot/buffer of reception h=%d was written again after the receiver had consumed the message" % h))
             continue
         if k == "D":
             continue
@@ -296,18 +354,11 @@ def replay(out, prop):
                 b.toggled = True
                 res.count("set_receiver_calls")
             elif op == "cancel":
-                hd = hs[int(kv["h"])]
-                b = boxes[hd.box]
-                q = b.sends if hd.kind == "put" else b.recvs
-                if hd.h in q:
-                    q.remove(hd.h)
-                    hd.withdrawn = True
-                    res.count("cancels_of_pending_requests")
-                elif hd.peer is not None:
-                    hd.cancel_hit = hs[hd.peer].cancel_hit = True
-                    res.count("cancels_of_matched_requests")
-            elif op in ("wait", "test"):
-                hs[int(kv["h"])].waiting = op == "wait"
+                w = withdraw(hs[int(kv["h"])])
+                if w != "none":
+                    res.count("cancels_of_%s_requests" % w)
+            elif op in ("wait", "test", "waitk"):
+                hs[int(kv["h"])].waiting = op != "test"
             elif op == "wany":
                 for x in kv["hs"].split(","):
                     hs[int(x)].waiting = True
@@ -325,23 +376,33 @@ def replay(out, prop):
             if st == "ok":
                 if hd.kind == "get":
                     if not deliver(hd, kv, ev["ln"], "direct"):
-                        break
+                        continue
                 else:
                     hd.result = "ok"
-            elif st == "timeout":
-                # MessageQueue::get(timeout)/put(payload, timeout) reported the timeout to the caller
-                b.stale = True
+            elif st.startswith("timeout"):
+                # MessageQueue::get(timeout) reported the timeout to the caller: the get is over, it cannot consume a later put
+                res.after_timeout = True
                 res.count("queue_api_timeouts")
+                hd.timed_out = True
                 if hd.kind == "get":
-                    q = b.recvs
-                    if hd.h in q:
-                        q.remove(hd.h)       # statement: the get is over, it cannot consume a later put
+                    if hd.h in b.recvs:
+                        b.recvs.remove(hd.h)
                         hd.withdrawn = True
-                # a timed-out put stays deliverable: the statement is silent
+                    else:
+                        # a put arrived in the scheduling round in which the timeout fired: the statement does not say who wins
+                        res.stopped = "tie between the expiry of a get(timeout) and a put"
+                        res.count("replays_cut_at_a_timeout_tie")
+                else:
+                    # put(payload, timeout): whether a timed-out put stays deliverable is not stated: no model of what follows
+                    res.stopped = "a put(timeout) timed out"
+            elif st.startswith("fail") and op in ("putT", "getT") and "Timeout" in st:
+                for x in api_to.pop(kv.get("now"), []):
+                    w = withdraw(hs[x])
+                    res.count("mailbox_api_timeouts_of_%s_requests" % w)
             elif st.startswith("fail"):
                 if not failed(hd, kv, ev["ln"]):
-                    break
-        elif op in ("wait", "test", "wany"):
+                    continue
+        elif op in ("wait", "test", "wany", "waitk"):
             if op == "wany":
                 for x in hs.values():
                     if x.actor == a:
@@ -352,7 +413,7 @@ def replay(out, prop):
                 hd.waiting = False
                 if hd.kind == "get":
                     if not deliver(hd, kv, ev["ln"], op):
-                        break
+                        continue
                 else:
                     hd.result = "ok"
                     if hd.cancel_hit:
@@ -360,6 +421,8 @@ def replay(out, prop):
             elif st == "timeout":
                 if hd is not None:
                     hd.waiting = False
+                    if op == "waitk":
+                        res.after_timeout = True      # wait_for() on a message-queue activity timed out and the activity lives on
                 res.count("wait_timeouts")
             elif st == "0":
                 hd.waiting = False
@@ -369,9 +432,9 @@ def replay(out, prop):
                     for x in [y for y in kv.get("failed", "").split(",") if y]:
                         ok = failed(hs[int(x)], kv, ev["ln"]) and ok
                     if not ok:
-                        break
+                        continue
                 elif not failed(hd, kv, ev["ln"]):
-                    break
+                    continue
     # ---- end of the log
     if res.completed and not res.stopped:
         for hd in hs.values():
@@ -386,6 +449,6 @@ def replay(out, prop):
             break
     pend = sum(len(b.sends) for b in boxes.values())
     res.count("sends_still_pending_at_end", pend)
-    res.stale = any(b.stale for b in boxes.values())
     res.toggled = any(b.toggled for b in boxes.values())
+    res.qcontext = qcontext()
     return res
